@@ -179,6 +179,11 @@ func ProfileFor(prop, tier string, seed uint64) *Profile {
 		pf.WCreate = 8
 		pf.WSelect = 10
 		pf.CacheCaps = []int{0, 0, 32}
+		if v == 2 || v == 6 { // many tables: the catalog trees split inside CREATE TABLE
+			pf.Tables = [2]int{7, 13}
+			pf.WCreate = 30
+			pf.Stmts = [2]int{14, 40}
+		}
 		if thorough {
 			pf.Stmts = [2]int{10, 60}
 		}
